@@ -48,6 +48,7 @@ struct lock_harness final : harness {
     bool have_writer = false;
     for (unsigned t = 0; t < T; ++t) {
       const unsigned ntx = 1 + static_cast<unsigned>(r.below(T == 2 ? 3 : 2));
+      int pending_destroy = 0;
       for (unsigned x = 0; x < ntx; ++x) {
         std::string l = "t" + std::to_string(t) + " R";
         const bool writer = r.chance(1, 2) || (t == T - 1 && x == ntx - 1 && !have_writer);
@@ -59,7 +60,11 @@ struct lock_harness final : harness {
         if (writer) {
           have_writer = true;
           l += " W w";
-          l += r.chance(1, 6) ? " O" : (r.chance(3, 4) ? " X" : "");
+          // explicit unlock()/unlock_and_obsolete(), with the guard object destroyed at once ("X"/"O") or kept
+          // alive ("Xk"/"Ok": destroyed by a later "D" line or at the end of the script), or implicit (RAII)
+          const bool keep = r.chance(1, 2);
+          l += r.chance(1, 6) ? (keep ? " Ok" : " O") : (r.chance(3, 4) ? (keep ? " Xk" : " X") : "");
+          if (keep && r.chance(1, 2)) pending_destroy = 1 + static_cast<int>(r.below(2));
         } else {
           const unsigned e = static_cast<unsigned>(r.below(4));
           if (e == 0) l += " U";
@@ -67,7 +72,9 @@ struct lock_harness final : harness {
           else if (e == 2) l += " C U";
         }
         p += l + "\n";
+        if (pending_destroy > 0 && --pending_destroy == 0) p += "t" + std::to_string(t) + " D\n";
       }
+      if (pending_destroy > 0) p += "t" + std::to_string(t) + " D\n";
     }
     if (st) st->inc("programs_threads_" + std::to_string(T));
     return p;
@@ -106,10 +113,13 @@ struct lock_harness final : harness {
       bodies.push_back([&, t] {
         auto& H = hist[t];
         int txn_no = 0;
+        std::vector<std::unique_ptr<std::optional<unodb::optimistic_lock::write_guard>>> kept;
         for (auto& toks : txns[t]) {
           ++txn_no;
           unodb::optimistic_lock::read_critical_section rcs;
-          std::optional<unodb::optimistic_lock::write_guard> wg;
+          using guard_box = std::optional<unodb::optimistic_lock::write_guard>;
+          auto wgp = std::make_unique<guard_box>();
+          guard_box& wg = *wgp;
           enum { NONE, READ, WRITE, DEAD } state = NONE;
           for (auto& tok : toks) {
             if (tok == "R") {
@@ -157,22 +167,32 @@ struct lock_harness final : harness {
                 sh.w[i].store(g);
                 H.push_back({E_WRITE, s0, S.stamp(), true, g, i, txn_no});
               }
-            } else if (tok == "X") {
+            } else if (tok == "X" || tok == "Xk") {
               if (state != WRITE) continue;
               const auto s0 = S.stamp();
               wg->unlock();
               H.push_back({E_WUNLOCK, s0, S.stamp(), true, 0, -1, txn_no});
-              wg.reset();
+              // "Xk": the guard object stays alive after its explicit unlock() (it is destroyed by a
+              // later D operation or at the end of the script): its destructor must then do nothing
+              if (tok == "Xk") kept.push_back(std::move(wgp));
+              else wg.reset();
               state = NONE;
-            } else if (tok == "O") {
+              if (tok == "Xk") break;  // the rest of this transaction has no guard holder any more
+            } else if (tok == "O" || tok == "Ok") {
               if (state != WRITE) continue;
               const auto s0 = S.stamp();
               wg->unlock_and_obsolete();
               H.push_back({E_OBSOLETE, s0, S.stamp(), true, 0, -1, txn_no});
-              wg.reset();
+              if (tok == "Ok") kept.push_back(std::move(wgp));
+              else wg.reset();
               state = NONE;
+              if (tok == "Ok") break;
+            } else if (tok == "D") {
+              // destroy the oldest guard object kept alive after its explicit unlock
+              if (!kept.empty()) kept.erase(kept.begin());
             }
           }
+          if (!wgp) continue;  // holder was handed to `kept`
           // implicit release at scope end (RAII)
           if (state == WRITE) {
             const auto s0 = S.stamp();
